@@ -80,6 +80,77 @@ def check_handlers(F: Findings, stats):
                 F.add(f"handler:{hname}:validate-rejects-generated", f"{label}.validate({v!r}) is {ok!r} for a value its own generate produced (draws={values})", size=len(values))
 
 
+def redeclaration_scenario(F: Findings, stats, seed):
+    """A refinement is re-declared on a class that was already used (the Cls.__init__.__annotations__[...] idiom of the
+    handlers' docstrings), the grammar is extracted again, and everything created / mapped under the NEW grammar must satisfy
+    the NEW refinement (nothing about the class may be remembered across extractions)."""
+    from abc import ABC as _ABC
+    from dataclasses import dataclass as _dc
+    from typing import Annotated as _Ann
+    from geneticengine.grammar.grammar import extract_grammar as _eg
+    from geneticengine.grammar.metahandlers.ints import IntRange as _IR
+    from geneticengine.grammar.metahandlers.lists import ListSizeBetween as _LS
+    from geneticengine.random.sources import NativeRandomSource as _NRS
+    from geneticengine.representations.tree.initializations import MaxDepthDecider as _MD
+    from geneticengine.representations.tree.treebased import TreeBasedRepresentation as _TR
+    from geneticengine.representations.grammatical_evolution.ge import GrammaticalEvolutionRepresentation as _GE
+    from geneticengine.representations.grammatical_evolution.structured_ge import StructuredGrammaticalEvolutionRepresentation as _SGE
+
+    import dataclasses as _dcs
+
+    # classes are built with real type objects (this module uses postponed annotations, which get_type_hints could not
+    # resolve for names local to this function)
+    ExprR = type("ExprR", (_ABC,), {"__module__": __name__})
+    LitR = _dcs.make_dataclass("LitR", [("value", _Ann[int, _IR(0, 5)])], bases=(ExprR,))
+    PlusR = _dcs.make_dataclass("PlusR", [("left", ExprR), ("right", ExprR)], bases=(ExprR,))
+    VecR = _dcs.make_dataclass("VecR", [("items", _Ann[list[LitR], _LS(1, 2)])], bases=(ExprR,))
+    for _c in (LitR, PlusR, VecR):
+        _c.__module__ = __name__
+
+    def walk(e, lo, hi, smin, smax, out, what):
+        if isinstance(e, LitR):
+            if not lo <= e.value <= hi:
+                out.append(f"{what}: LitR.value={e.value} with the field declared IntRange({lo},{hi})")
+        elif isinstance(e, PlusR):
+            walk(e.left, lo, hi, smin, smax, out, what)
+            walk(e.right, lo, hi, smin, smax, out, what)
+        elif isinstance(e, VecR):
+            if not smin <= len(e.items) <= smax:
+                out.append(f"{what}: len(VecR.items)={len(e.items)} with the field declared ListSizeBetween({smin},{smax})")
+            for i in e.items:
+                walk(i, lo, hi, smin, smax, out, what)
+
+    def one_round(sd, lo, hi, smin, smax, tag):
+        out = []
+        g = _eg([LitR, PlusR, VecR], ExprR)
+        r = _NRS(sd)
+        dec = _MD(r, g, 4)
+        tree = _TR(g, dec)
+        pop = [tree.create_genotype(r) for _ in range(12)]
+        for e in pop:
+            walk(e, lo, hi, smin, smax, out, f"{tag}, tree create")
+            walk(tree.mutate(r, e), lo, hi, smin, smax, out, f"{tag}, tree mutate")
+        for nm, rep in (("GE", _GE(g, dec, gene_length=64)), ("SGE", _SGE(g, dec, gene_length=32))):
+            for _ in range(6):
+                gt = rep.create_genotype(r)
+                walk(rep.genotype_to_phenotype(gt), lo, hi, smin, smax, out, f"{tag}, {nm} mapping")
+        stats["evaluations"] = stats.get("evaluations", 0) + 36
+        return out
+
+    try:
+        bad = one_round(seed, 0, 5, 1, 2, "first declaration")
+        LitR.__init__.__annotations__["value"] = _Ann[int, _IR(100, 105)]
+        VecR.__init__.__annotations__["items"] = _Ann[list[LitR], _LS(3, 4)]
+        bad2 = one_round(seed + 1, 100, 105, 3, 4, "after re-declaring the refinements and extracting the grammar again")
+    except Exception as ex:  # noqa
+        F.add("redeclaration:exception", f"re-declaration scenario raised {type(ex).__name__}: {str(ex)[:100]}", size=1)
+        return
+    for m in bad[:1]:
+        F.add("redeclaration:first-declaration-violated", m, size=1)
+    for m in bad2[:1]:
+        F.add("redeclaration:stale-refinement-after-re-extraction", m + f" ({len(bad2)} such values)", size=1)
+
+
 def run(tier: str, seed: int) -> dict:
     thorough = tier == "thorough"
     budget = Budget(420 if thorough else 33)
@@ -128,13 +199,15 @@ def run(tier: str, seed: int) -> dict:
                 f"{c.where()}: program {show(p, 90)} violates {handler} at {path}: {detail}",
                 size=c.size + count_nodes(p),
             )
+    redeclaration_scenario(F, stats, seed)
     n_ex = sum(1 for x in cells if x[4])
     rule = (
         f"(a) {len(handler_grid())} handler/parameter combinations (min==max, empty-allowed lists, one-letter alphabets): all draw outcomes of generate "
         f"({n_handler_cases} runs) checked against the documented predicate and the handler's own validate; "
         f"(b) {len(fam)} family grammars x 8 representations x max_depth in [reported minimum, +{extra_depths - 1}]: creation over all draw outcomes up to {ex_runs} runs per cell "
         f"({n_ex}/{len(cells)} cells exhausted), {seeds} seeds x (2 creations + 3 mutate/crossover steps); every refined position (top level, in lists, in unions, under Dependent) "
-        f"checked against the documented predicate with the actual sibling values"
+        f"checked against the documented predicate with the actual sibling values; "
+        f"(c) refinements re-declared on used classes (Cls.__init__.__annotations__[...] = ...), grammar extracted again: tree create / mutate and GE / SGE mapping under the new grammar against the NEW refinements"
         + ("; wall-clock budget reached, remaining cells skipped" if budget.tripped else "")
     )
     return result(stats["evaluations"], len(stats["distinct"]), rule, samples, F.violations(), exhaustive=False, handler_runs=n_handler_cases, cells=len(cells), cells_exhausted=n_ex, budget_tripped=budget.tripped)
